@@ -4,7 +4,7 @@ from __future__ import annotations
 import ast
 from typing import List, Optional, Set
 
-from ..fold import try_fold
+from ..fold import fold_in_fn
 from ..model import parent, text, walk_fn
 
 
@@ -25,7 +25,7 @@ def _skip_set(test, fn) -> Optional[tuple]:
                     and isinstance(a.left.slice.operand, ast.Name)):
                 ok = False
                 break
-            v = try_fold(a.comparators[0], fn.mod)
+            v = fold_in_fn(a.comparators[0], fn, default=None)
             if isinstance(a.ops[0], ast.Eq) and isinstance(v, str):
                 local.add(v)
             elif isinstance(a.ops[0], ast.In) and isinstance(v, (tuple, list, set, frozenset)) and all(isinstance(x, str) for x in v):
